@@ -62,6 +62,9 @@ lemma MulMono(a int, b int, g int)
     ensures a * g <= b * g
 
 func NewDynamicFeeChecker$1
+    // effectiveFee is an unsanitised sdk.Coins{{denom, price x gas}} literal (possibly a zero coin); its consumer DeductFeeDecorator.deductFee
+    // tests IsZero (true for a zero coin) before anything else
+    allow coinslit
     let P = dfk_params(k, ctx)
     let denom = dfk_params(k, ctx).EvmDenom
     let cfg = chaincfg_eth(dfk_params(k, ctx).ChainConfig, evmk_chainid(k))
